@@ -1,6 +1,7 @@
 package engine
 
 import (
+	"strings"
 	"context"
 	"errors"
 	"io"
@@ -206,8 +207,11 @@ type faultyReflection struct {
 	rpb.ServerReflectionServer
 	mu        sync.Mutex
 	failAfter int // <0: never
+	clean     bool // ... and then end the stream with status OK instead of an error (the client sees io.EOF)
 	active    int // reflection streams whose server handler has not returned yet
 }
+
+var errReflectionCleanEnd = errors.New("sim: reflection stream ended early on purpose")
 
 func (f *faultyReflection) activeStreams() int {
 	f.mu.Lock()
@@ -228,6 +232,12 @@ func (s *countingStream) Send(m *rpb.ServerReflectionResponse) error {
 	limit := s.f.failAfter
 	s.f.mu.Unlock()
 	if limit >= 0 && s.n >= limit {
+		s.f.mu.Lock()
+		clean := s.f.clean
+		s.f.mu.Unlock()
+		if clean {
+			return errReflectionCleanEnd
+		}
 		return errReflection
 	}
 	s.n++
@@ -243,14 +253,23 @@ func (f *faultyReflection) ServerReflectionInfo(stream rpb.ServerReflection_Serv
 		f.active--
 		f.mu.Unlock()
 	}()
-	return f.ServerReflectionServer.ServerReflectionInfo(&countingStream{ServerReflection_ServerReflectionInfoServer: stream, f: f})
+	err := f.ServerReflectionServer.ServerReflectionInfo(&countingStream{ServerReflection_ServerReflectionInfoServer: stream, f: f})
+	if errors.Is(err, errReflectionCleanEnd) || err != nil && strings.Contains(err.Error(), errReflectionCleanEnd.Error()) {
+		return nil // the stream just ends, status OK
+	}
+	return err
 }
 
-func (f *faultyReflection) setFailAfter(n int) {
+func (f *faultyReflection) setFailAfter(n int) { f.setFail(n, false) }
+
+func (f *faultyReflection) setFail(n int, clean bool) {
 	f.mu.Lock()
-	f.failAfter = n
+	f.failAfter, f.clean = n, clean
 	f.mu.Unlock()
 }
+
+// reflJ: the number in a "refl:<j>" / "refl:<j>c" fault.
+func reflJ(fail string) string { return strings.TrimSuffix(strings.TrimPrefix(fail, "refl:"), "c") }
 
 // verboseReflection is a second, independent implementation of the reflection
 // service: it answers every file request with the file and ALL of its
@@ -353,7 +372,9 @@ func newBackend(sim *core.Sim, spec *BackendSpec, reqs map[int]*reqState) (*back
 	b.refl = &faultyReflection{ServerReflectionServer: inner, failAfter: -1}
 	rpb.RegisterServerReflectionServer(b.srv, b.refl)
 	go b.srv.Serve(b.lis)
-	cc, err := grpc.NewClient("passthrough:///"+spec.Tag,
+	// (every backend is dialled under the same name, as replicas behind one
+	// address are: only the *grpc.ClientConn tells them apart)
+	cc, err := grpc.NewClient("passthrough:///sim-replicas",
 		grpc.WithContextDialer(func(ctx context.Context, _ string) (net.Conn, error) {
 			b.mu.Lock()
 			dead := b.dead
